@@ -68,8 +68,11 @@ package xlsx
 
 // ws = the unmarshalled worksheet (abstract input of the placement).  colOf(cell) = column parsed from the cell reference.
 //@ func (*Reader) parseWorksheet results (res, err)
-//@   property C18, C17
+//@   property C18, C17, C02
 //@   flags nosafety, readonly
+// the grid is sized from cell references in the file: both allocations stay within the sheet limits, and the dense
+// grid as a whole within the cell budget
+//@   callsite make(k) requires grid_within_the_sheet_limits: k <= maxSheetRows && maxRow <= maxSheetRows && maxCol + 1 <= maxSheetCols && maxRow * (maxCol + 1) <= maxSheetCells
 //@   ensures identity: !err ==> res.Name == name && res.Index == index
 //@   ensures grid_covers_every_addressed_cell: !err ==> forall a int, b int :: {ws.SheetData.Rows[a].Cells[b]} 0 <= a && a < len(ws.SheetData.Rows) && 0 <= b && b < len(ws.SheetData.Rows[a].Cells) && !ParseCellRef$2(ws.SheetData.Rows[a].Cells[b].R) ==> ParseCellRef(ws.SheetData.Rows[a].Cells[b].R) <= res.MaxCol && ws.SheetData.Rows[a].R <= res.MaxRow + 1
 //@   ensures grid_is_dense: !err ==> len(res.Rows) == res.MaxRow + 1 && forall i int :: {res.Rows[i]} 0 <= i && i < len(res.Rows) ==> len(res.Rows[i]) == res.MaxCol + 1
@@ -105,9 +108,11 @@ package xlsx
 //@   loop 8:
 //@     invariant same(sheet.Name, name) && sheet.Index == index && sheet.MaxRow == maxRow - 1 && sheet.MaxCol == maxCol && len(sheet.Rows) == maxRow
 //@     invariant forall k int :: {sheet.Rows[k]} 0 <= k && k < len(sheet.Rows) ==> len(sheet.Rows[k]) == maxCol + 1
+//@     decreases len(sheet.Rows) - row
 //@   loop 9:
 //@     invariant same(sheet.Name, name) && sheet.Index == index && sheet.MaxRow == maxRow - 1 && sheet.MaxCol == maxCol && len(sheet.Rows) == maxRow
 //@     invariant forall k int :: {sheet.Rows[k]} 0 <= k && k < len(sheet.Rows) ==> len(sheet.Rows[k]) == maxCol + 1
+//@     decreases maxCol + 1 - col
 //@     step covered_cell_is_marked_merged: sheet.Rows[row][prev(col)].IsMerged
 //@     step top_left_is_the_root: row == mr.StartRow && prev(col) == mr.StartCol ==> sheet.Rows[row][prev(col)].IsMergeRoot && sheet.Rows[row][prev(col)].MergeRows == mr.EndRow - mr.StartRow + 1 && sheet.Rows[row][prev(col)].MergeCols == mr.EndCol - mr.StartCol + 1
 //@     step covered_cells_are_not_roots: !(row == mr.StartRow && prev(col) == mr.StartCol) ==> sheet.Rows[row][prev(col)].IsMergeRoot == prev(sheet.Rows)[row][prev(col)].IsMergeRoot && sheet.Rows[row][prev(col)].MergeRows == prev(sheet.Rows)[row][prev(col)].MergeRows
